@@ -25,7 +25,18 @@ fn rand_frame(rng: &mut impl Rng, maxlen: usize) -> Vec<u8> {
                 _ => rng.gen_range(0..12),
             };
             let sp = DataSpec { da: rng.gen_range(0..127), sa: rng.gen_range(0..127), dsap, ssap, fc: fcs[rng.gen_range(0..fcs.len())], pdu: (0..n).map(|_| rng.gen()).collect() };
-            sp.encode().map(|x| x.0).unwrap_or(vec![0xE5])
+            let b = sp.encode().map(|x| x.0).unwrap_or(vec![0xE5]);
+            // the decoder also accepts the variable-length framing for the lengths the encoder writes
+            // as SD1 / SD3: the same telegram framed as SD2 (LE = 3 or 11) is a valid telegram on the wire
+            if (b[0] == 0x10 || b[0] == 0xA2) && rng.gen_bool(0.35) {
+                let body = &b[1..b.len() - 2];
+                let mut o = vec![0x68, body.len() as u8, body.len() as u8, 0x68];
+                o.extend_from_slice(body);
+                o.extend_from_slice(&b[b.len() - 2..]);
+                o
+            } else {
+                b
+            }
         }
     }
 }
@@ -35,7 +46,7 @@ fn call_one(phy: &mut impl ProfibusPhy, now: Instant) -> Result<Vec<Value>, (Str
     guarded(|| {
         let mut cbs = vec![];
         phy.receive_telegram(now, |t| {
-            cbs.push(json!({"n": t.telegram_len(), "last": Value::Null, "t": tel_json(&t, None)}));
+            cbs.push(json!({"last": Value::Null, "t": tel_json(&t, None)}));
         });
         cbs
     })
@@ -45,7 +56,7 @@ fn call_all(phy: &mut impl ProfibusPhy, now: Instant) -> Result<Vec<Value>, (Str
     guarded(|| {
         let mut cbs = vec![];
         phy.receive_all_telegrams(now, |t, last| {
-            cbs.push(json!({"n": t.telegram_len(), "last": last, "t": tel_json(&t, None)}));
+            cbs.push(json!({"last": last, "t": tel_json(&t, None)}));
         });
         cbs
     })
@@ -139,11 +150,9 @@ fn do_call(log: &mut EvLog, phy: &mut BufPhy, now: Instant, one: bool) {
         Err((msg, loc)) => log.push(json!({"ev":"Panic","msg":msg,"loc":short_loc(&loc),"during":"rx"})),
         Ok(mut cbs) => {
             if one {
-                // receive_telegram has no is_last: what the spec calls last is not observable; fill from the buffer
-                let mut used = 0usize;
+                // receive_telegram has no is_last flag: the field is not judged for this helper
                 for c in cbs.iter_mut() {
-                    used += c["n"].as_u64().unwrap() as usize;
-                    c["last"] = json!(used == pre.len());
+                    c["last"] = json!(false);
                 }
             }
             let pending = phy.poll_pending_received_bytes(now);
@@ -209,10 +218,9 @@ fn session_sim(log: &mut EvLog, rng: &mut impl Rng, nframes: usize) {
             match r {
                 Ok(mut cbs) => {
                     if one {
-                        let mut used = 0usize;
+                        // receive_telegram has no is_last flag: the field is not judged for this helper
                         for c in cbs.iter_mut() {
-                            used += c["n"].as_u64().unwrap() as usize;
-                            c["last"] = json!(used == pre.len());
+                            c["last"] = json!(false);
                         }
                     }
                     let pending = rx.poll_pending_received_bytes(tn);
